@@ -122,6 +122,7 @@ class Renderer:
       decl.append(f"    s.{n} = Wire( {self.tname(t)} )")
     for iname, ccn in c["children"]:
       decl.append(f"    s.{iname} = {ccn}_{tag}()")
+    decl.extend("    " + l for l in c.get("raw_decl", []))
     L.extend(decl)
     body = []                                   # list of statement groups (each a list of lines)
     for dst, src in c["conns"]:
@@ -144,7 +145,7 @@ class Renderer:
       self.rng.shuffle(body)
     if self.v.get("perm_blocks"):
       self.rng.shuffle(blocks)
-    groups = body + blocks
+    groups = body + blocks + [["    " + l for l in g] for g in c.get("raw_groups", [])]
     if self.v.get("interleave"):
       self.rng.shuffle(groups)
     for g in groups: L.extend(g)
